@@ -96,7 +96,7 @@ PROPS = {
         title='Automatic bounds are exactly those the generated code needs',
         theorems=[],
         streams=[stream('hdr_auto', 'headers', kinds=('struct', 'enum', 'union'), faults=0.0, n=(3000, 50000))],
-        k2=['bounds'], k2_n=(150, 2000),
+        k2=['bounds'], k2_n=(500, 5000),
     ),
     'C19': dict(
         title='Generated code is insulated from the names at the derive site',
